@@ -21,7 +21,8 @@ From CG3 Require Import Proofs.IndelMapProofs Proofs.IndelMapOps Proofs.IndelMap
                         Proofs.IndelMapMain Proofs.IndelMapBounded Proofs.IndelMapFixedProofs
                         Proofs.IndelMapMerge Proofs.IndelMapShared Proofs.IndelMapJoin Proofs.FeatureMapProofs
                         Proofs.FeatureMapCovInv Proofs.IndelMapGenEq Proofs.IndelMapGenMain.
-From CG3 Require Import Model.FeatureMapPrims Proofs.FeatureMapGenEq Proofs.FeatureMapGenMain.
+From CG3 Require Import Model.FeatureMapPrims Model.FeatureMapFixed Proofs.FeatureMapGenEq Proofs.FeatureMapGenMain
+                        Proofs.FeatureMapFixedProofs.
 From CG3gen Require Import IndelMapGen FeatureMapGen.
 Import G. Import GF.
 
@@ -460,6 +461,32 @@ Theorem seq_span_bounds : forall (m : imap) (s e : Z), WF m -> 0 <= s -> s <= e 
   0 <= residues (firstn (Z.to_nat s) (abs m)) <= residues (firstn (Z.to_nat e) (abs m)) /\
   residues (firstn (Z.to_nat e) (abs m)) <= parent_length m.
 Proof. exact IndelMapMain.seq_span_bounds. Qed.
+
+(** [Span.remap_with] after the repair of finding C08-6 (Model/FeatureMapFixed.v; the check runs this variant when the
+    implementation behaves that way): composition and slicing keep their meaning, and a span lying wholly outside the map
+    gives as many lost positions as it has — which the rule before the repair violates *)
+
+Theorem composition_v2_spec : forall fm sub : fmap,
+  in_parent fm = true -> fspans fm <> [] -> in_parent sub = true -> fplen sub = flen fm ->
+  exists c, fm_getitem_map_v2 fm sub = Ok c /\ den c = compose (den fm) (den sub) /\ fplen c = fplen fm /\
+            in_parent c = true.
+Proof. exact FeatureMapFixedProofs.composition_v2_spec. Qed.
+
+Theorem fm_getitem_slice_v2_spec : forall (fm : fmap) (a b : option Z),
+  in_parent fm = true -> fspans fm <> [] ->
+  exists c, fm_getitem_slice_v2 fm a b = Ok c /\ in_parent c = true /\ fplen c = fplen fm /\
+            den c = zslice (den fm) (norm_index a (flen fm) 0)
+                           (Z.max (norm_index a (flen fm) 0) (norm_index b (flen fm) (flen fm))).
+Proof. exact FeatureMapFixedProofs.getitem_slice_v2_spec. Qed.
+
+Theorem remap_with_wholly_outside_refuted :
+  exists fm sub c, in_parent fm = true /\ fm_getitem_map fm sub = Ok c /\ zlen (den c) <> zlen (den sub).
+Proof. exact FeatureMapFixedProofs.remap_with_wholly_outside_refuted. Qed.
+
+Theorem remap_with_v2_wholly_outside :
+  exists c, fm_getitem_map_v2 (mk_fmap [FS 2 5 false; FL 2; FS 7 9 true] 10) (mk_fmap [FS (-5) (-2) false] 7) = Ok c /\
+            zlen (den c) = 3 /\ zlen (den (mk_fmap [FS (-5) (-2) false] 7)) = 3 /\ den c = [None; None; None].
+Proof. exact FeatureMapFixedProofs.remap_with_v2_wholly_outside. Qed.
 
 (** * the hypotheses are satisfiable: concrete instances *)
 Theorem wf_example : WF (from_mask [false; true; true; false; true; false; false]).
